@@ -113,18 +113,18 @@ each (run, node, connection) are validated against the handler automaton. -/
 def hvalidateMain (file : String) : IO Unit := do
   let lines := ((← IO.FS.readFile file).splitOn "\n").filter (!·.isEmpty)
   let out ← IO.getStdout
-  let mut groups : Std.HashMap String (List String) := {}
+  let mut groups : Std.HashMap String (Array String) := {}
   let mut order : List String := []
   for l in lines do
     match l.splitOn " " with
     | r :: n :: c :: _p :: rest =>
       let key := s!"{r} {n} {c}"
       if !groups.contains key then order := key :: order
-      groups := groups.insert key ((groups.getD key []) ++ [" ".intercalate rest])
+      groups := groups.alter key fun a => some ((a.getD #[]).push (" ".intercalate rest))
     | _ => pure ()
   let mut bad := 0
   for key in order.reverse do
-    match Driver.HandlerVal.validate (groups.getD key []) with
+    match Driver.HandlerVal.validate (groups.getD key #[]).toList with
     | some (i, l) =>
       bad := bad + 1
       out.putStrLn s!"hviol {key} event {i}: `{l}` is not explained by the handler automaton"
